@@ -315,6 +315,12 @@ pub proof fn ax_bit_len_e_range(k: nat)
     ensures bit_len((ipow(2, k) - 1) - (ipow(2, (k - 1) as nat) + 1)) < 50000,
 { admit(); }
 
+/// to_digits / from_digits round trip (most significant first, no leading zeros) for non-negative values
+pub proof fn ax_digits_roundtrip(a: int)
+    requires a >= 0,
+    ensures from_digits_be(digits_be(a)) == a,
+{ admit(); }
+
 /// gcd depends on the residue only
 pub proof fn ax_gcd_mod(a: int, n: int)
     requires n > 0,
